@@ -74,6 +74,9 @@ var scopeOps = []string{"UserEvents", "Api", "HttpUrlId", "Alerts", "IdMap"}
 
 // wireName is the operation name inside the frame.
 func wireName(op string) string {
+	if isNested(op) {
+		return "Made"
+	}
 	switch op {
 	case "UserEvents":
 		return "Created"
@@ -91,6 +94,9 @@ func wireName(op string) string {
 
 // scopeName is the IDL name of the operation's scope.
 func scopeName(op string) string {
+	if isNested(op) {
+		return nestedScope(op)
+	}
 	switch op {
 	case "UserEvents":
 		return "user_events"
@@ -108,7 +114,12 @@ func scopeName(op string) string {
 	return "Events"
 }
 
-func hasVar(op string) bool { return op != "Ping" && op != "Api" && op != "Alerts" }
+func hasVar(op string) bool {
+	if isNested(op) {
+		return nestedHasVar(op)
+	}
+	return op != "Ping" && op != "Api" && op != "Alerts"
+}
 
 type scopePubs struct {
 	ue  c07scopes.UserEventsPublisher
@@ -116,11 +127,12 @@ type scopePubs struct {
 	hui c07scopes.HTTPURLIDPublisher
 	al  c07scopes.AlertsPublisher
 	idm c07scopes.IDMapPublisher
+	nst *nestPubs
 }
 
 func newScopePubs(p *frugal.FScopeProvider) *scopePubs {
 	return &scopePubs{ue: c07scopes.NewUserEventsPublisher(p), api: c07scopes.NewAPIPublisher(p), hui: c07scopes.NewHTTPURLIDPublisher(p),
-		al: c07scopes.NewAlertsPublisher(p), idm: c07scopes.NewIDMapPublisher(p)}
+		al: c07scopes.NewAlertsPublisher(p), idm: c07scopes.NewIDMapPublisher(p), nst: newNestPubs(p)}
 }
 
 func (sp *scopePubs) open() {
@@ -129,6 +141,7 @@ func (sp *scopePubs) open() {
 	sp.hui.Open()
 	sp.al.Open()
 	sp.idm.Open()
+	sp.nst.open()
 }
 
 // publish sends a Note on the operation's topic; false if op is not one of
@@ -145,6 +158,9 @@ func (sp *scopePubs) publish(ctx frugal.FContext, op, user string, n *c07scopes.
 		return true, sp.al.PublishRaised(ctx, n)
 	case "IdMap":
 		return true, sp.idm.PublishPut(ctx, user, n)
+	}
+	if isNested(op) {
+		return sp.nst.publish(ctx, op, user, n)
 	}
 	return false, nil
 }
@@ -311,6 +327,7 @@ type seqRun struct {
 	letters []byte
 
 	tapCount  int64 // bodies the tap received
+	wide      bool  // the tap is a NATS wildcard subscription: every publish of the sequence counts
 	onSubject int64 // bodies published on the subscribed subject
 	tapStops  []func()
 
@@ -347,7 +364,7 @@ func (q *seqRun) count(k string, n int) { q.res.Counters[k] += n }
 func (q *seqRun) vio(sig, what string, witness map[string]interface{}) {
 	witness["spec"] = q.spec
 	witness["steps"] = string(q.letters)
-	witness["steps_legend"] = "shared mode: a b c = valid message on the topic of subscription 0 1 2, digits 0 1 2 = its sentinel; P = frame published through the subscriber's own connection (backpressure mode); otherwise: V valid, S sentinel, F follow-up sentinel, | Unsubscribe(A), lower case = malformed kind (s short-frame l len4 b bad-version n neg-header-size h huge-header-size t tiny-header-size p bad-pair-size o no-opid w wrong-op c truncated g garbage x wrong-struct), digits = foreign (1 other-op 2 other-user 3 prefix-topic 4 extension-topic)"
+	witness["steps_legend"] = "shared mode: a b c = valid message on the topic of subscription 0 1 2, digits 0 1 2 = its sentinel; P = frame published through the subscriber's own connection (backpressure mode); otherwise: V valid, S sentinel, F follow-up sentinel, | Unsubscribe(A), lower case = malformed kind (s short-frame l len4 b bad-version n neg-header-size h huge-header-size t tiny-header-size p bad-pair-size o no-opid w wrong-op c truncated g garbage x wrong-struct), digits = foreign (1 other-op 2 other-user 3 prefix-topic 4 extension-topic 5 transport-word-topic)"
 	q.res.Vios = append(q.res.Vios, Vio{Sig: "C07:" + q.spec.Broker + ":" + sig, What: what, Witness: witness})
 }
 
@@ -385,13 +402,18 @@ func shapeOf(s *Spec) string {
 		fl += "+prompt"
 	}
 	op := s.Op
-	if (s.Mode == "shared" || s.Mode == "concurrent") && s.Probe == "" {
+	if (s.Mode == "shared" || s.Mode == "concurrent" || s.Mode == "nested") && s.Probe == "" {
 		op = s.Mode + "("
 		for i, x := range s.Subs {
 			if i > 0 {
 				op += ","
 			}
 			op += x.Op
+			if s.Mode == "nested" && x.User == transportWord {
+				op += "=word"
+			} else if s.Mode == "nested" && strings.EqualFold(x.User, transportWord) {
+				op += "=Word"
+			}
 		}
 		op += ")"
 	}
@@ -477,6 +499,9 @@ func (q *seqRun) subscribe(name string, l *link, delay time.Duration) (*subscrib
 
 // emittedSubscribe calls the emitted Subscribe<Op> of the operation's scope.
 func emittedSubscribe(prov *frugal.FScopeProvider, op, user string, rec *recorder) (*frugal.FSubscription, error) {
+	if sub, ok, err := nestedSubscribe(prov, op, user, rec); ok {
+		return sub, err
+	}
 	switch op {
 	case "Sent":
 		return mainsvc.NewEventsSubscriber(prov).SubscribeSent(user, rec.onPayload)
@@ -567,7 +592,12 @@ func (q *seqRun) subscribeVia(name string, prov *frugal.FScopeProvider, op, user
 // received as many bodies as were published on the subject.  (It does not look
 // into the frames, so it keeps working when the code under test writes bad
 // frames.)
-func (q *seqRun) startTap() error { return q.startTapOn(q.topic) }
+func (q *seqRun) startTap() error {
+	if isNested(q.spec.Op) && q.spec.Broker == "nats" {
+		return q.startWideTap()
+	}
+	return q.startTapOn(q.topic)
+}
 
 func (q *seqRun) startTapOn(topic string) error {
 	if q.spec.Broker == "nats" {
@@ -698,7 +728,10 @@ func (q *seqRun) publishMalformed(kind string, phase int) error {
 	return q.rawPublish(q.topic, m.Raw, q.spec.ViaInject && q.rng.Intn(2) == 0)
 }
 
-var foreignKinds = []string{"other-op", "other-user", "prefix-topic", "extension-topic"}
+// transport-word-topic: the subscribed topic with the transports' own word
+// ("frugal.") put in front once more, or - if the subscribed topic itself
+// begins with that word - with the leading word taken away.
+var foreignKinds = []string{"other-op", "other-user", "prefix-topic", "extension-topic", "transport-word-topic"}
 
 func (q *seqRun) variantUser() string {
 	u := q.spec.User
@@ -730,6 +763,9 @@ func (q *seqRun) publishForeign(phase int) error {
 		kind = "extension-topic"
 	}
 	q.count("foreign_injected", 1)
+	if q.wide {
+		q.onSubject++ // the wildcard tap sees every publish
+	}
 	q.letters = append(q.letters, byte('1'+indexOf(foreignKinds, kind)))
 	switch kind {
 	case "other-op":
@@ -752,6 +788,10 @@ func (q *seqRun) publishForeign(phase int) error {
 		default:
 			t = t[:len(t)-1]
 		}
+	} else if kind == "transport-word-topic" {
+		ns := neighbours(t)
+		t = ns[1+q.rng.Intn(len(ns)-1)]
+		q.count("foreign_injected_on_transport_word_topic", 1)
 	} else {
 		t += []string{".x", "x", ".Sent", "." + wireName(q.spec.Op)}[q.rng.Intn(4)]
 	}
@@ -802,7 +842,9 @@ func (q *seqRun) publishTo(x *subscriber, kind string, phase int) (*msg, error) 
 	return m, err
 }
 
-func (q *seqRun) multiTopic() bool { return q.spec.Mode == "shared" || q.spec.Mode == "concurrent" }
+func (q *seqRun) multiTopic() bool {
+	return q.spec.Mode == "shared" || q.spec.Mode == "concurrent" || q.spec.Mode == "nested"
+}
 
 // followup publishes one more valid message x must get.
 func (q *seqRun) followup(x *subscriber, phase int) (*msg, error) {
@@ -816,6 +858,8 @@ func (q *seqRun) followup(x *subscriber, phase int) (*msg, error) {
 func (q *seqRun) role(x *subscriber, m *msg) string {
 	if q.multiTopic() && q.spec.Probe == "" {
 		switch {
+		case m.Target != x && q.spec.Mode == "nested":
+			return "forbidden:foreign-topic-delivered:" + nestedRelation(m.Target.topic, x.topic)
 		case m.Target != x && q.spec.Mode == "concurrent":
 			return "forbidden:foreign-topic-delivered:other-topic-of-the-same-publisher"
 		case m.Target != x:
@@ -1281,9 +1325,13 @@ func (q *seqRun) cleanup() {
 				q.count("stomp_messages_acked", i.Acked)
 			}
 		}
-		q.bus.sb.Forget(q.subject(q.topic))
+		for _, t := range neighbours(q.topic) {
+			q.bus.sb.Forget(q.subject(t))
+		}
 		for _, x := range q.subs {
-			q.bus.sb.Forget(q.subject(x.topic))
+			for _, t := range neighbours(x.topic) {
+				q.bus.sb.Forget(q.subject(t))
+			}
 		}
 	}
 }
@@ -1317,7 +1365,7 @@ func runSeq(b *bus, s *Spec) *Result {
 	capProv := frugal.NewFScopeProvider(q.cap, nil, rig.ProtocolFactory(s.Proto))
 	q.capE, q.capP, q.capX = mainsvc.NewEventsPublisher(capProv), mainsvc.NewPlainPublisher(capProv), newScopePubs(capProv)
 	q.topic = q.topicOf(s.Op, s.User)
-	if s.Mode == "shared" && s.Probe == "" {
+	if (s.Mode == "shared" || s.Mode == "nested") && s.Probe == "" {
 		q.runShared()
 	} else if s.Mode == "backpressure" && s.Probe == "" {
 		q.runBackpressure()
@@ -1864,8 +1912,23 @@ func (q *seqRun) runShared() {
 		return
 	}
 	prov := q.providerFor(q.aL) // the one provider / subscriber transport factory
+	nested := s.Mode == "nested"
+	label, setting := "shared-provider", fmt.Sprintf("with %d live subscriptions made through one scope provider", len(s.Subs))
+	if nested {
+		label, setting = "frugal-word-topics", fmt.Sprintf("with %d live subscriptions on topics that differ by a leading %q word", len(s.Subs), transportWord+".")
+		if s.Broker == "nats" {
+			if err := q.startWideTap(); err != nil {
+				q.inconclusive("tap: " + err.Error())
+				return
+			}
+		}
+	}
 	var taps []string
+	tapped := map[string]bool{}
 	for i, ss := range s.Subs {
+		if nested && s.Seed&1 == 1 {
+			prov = q.providerFor(q.aL) // a provider of its own per subscription
+		}
 		x, err := q.subscribeVia(fmt.Sprintf("S%d(%s %s)", i, ss.Op, ss.User), prov, ss.Op, ss.User, 0)
 		if err != nil {
 			q.inconclusive("Subscribe: " + err.Error())
@@ -1877,11 +1940,23 @@ func (q *seqRun) runShared() {
 			q.inconclusive("the emitted publisher did not publish on the capture transport")
 			return
 		}
-		if err := q.startTapOn(x.topic); err != nil {
-			q.inconclusive("tap: " + err.Error())
-			return
+		tapOn := []string{x.topic}
+		if nested {
+			// STOMP has no wildcard: tap the topic and its neighbours in the
+			// family (a publish folded onto a neighbour is then still routed)
+			tapOn = neighbours(x.topic)
 		}
-		taps = append(taps, x.topic)
+		for _, t := range tapOn {
+			if q.wide || tapped[t] {
+				continue
+			}
+			tapped[t] = true
+			if err := q.startTapOn(t); err != nil {
+				q.inconclusive("tap: " + err.Error())
+				return
+			}
+			taps = append(taps, t)
+		}
 		if !x.dumpOK {
 			q.count("worker_goroutines_not_identified", 1)
 		}
@@ -1907,7 +1982,7 @@ func (q *seqRun) runShared() {
 			return false
 		}
 		for _, x := range live {
-			if !q.settleSub(x, ph, "shared-provider", fmt.Sprintf("with %d live subscriptions made through one scope provider", len(q.subs))) {
+			if !q.settleSub(x, ph, label, setting) {
 				return false
 			}
 		}
@@ -1943,7 +2018,11 @@ func (q *seqRun) runShared() {
 			q.count("unsubscribe_checks", 1)
 		}
 	}
-	q.count("shared_provider_sequences_completed", 1)
+	if nested {
+		q.count("frugal_word_topic_sequences_completed", 1)
+	} else {
+		q.count("shared_provider_sequences_completed", 1)
+	}
 	q.count("sequences_completed", 1)
 }
 
